@@ -2,6 +2,9 @@
    Statements only; proofs in EvalGroupProofs.v.  Model: Eval.eval_group / filter_view. *)
 From Coq Require Import ZArith List Permutation.
 From Burrow Require Import Int64 F32 Eval EvalGroupProofs.
+From Coq Require Import Reals.
+From Flocq Require Import Core IEEE754.Binary IEEE754.Bits.
+From Burrow Require Import F32Proofs EvalProofs EvalCompleteProofs.
 Import ListNotations.
 Open Scope Z_scope.
 
@@ -86,3 +89,123 @@ Theorem C04_filtered_view :
     gs_maxlag (filter_view g) = gs_maxlag g /\ gs_totallag (filter_view g) = gs_totallag g.
 Proof. exact filtered_view_spec. Qed.
 Print Assumptions C04_filtered_view.
+
+(* ---- completeness in mathematical terms (proofs: F32Proofs.v, EvalCompleteProofs.v) ---- *)
+
+(* float32(z) is exact up to 2^24 *)
+Theorem C04_float32_of_int_exact :
+  forall z, 0 <= z <= 2 ^ 24 ->
+    B2R 24 128 (f32_of_int z) = IZR z /\ is_finite 24 128 (f32_of_int z) = true.
+Proof. exact f32_of_int_exact. Qed.
+Print Assumptions C04_float32_of_int_exact.
+
+(* float32(k)/float32(n) is the fraction k/n rounded once to binary32 (nearest, ties to even) *)
+Theorem C04_float32_fraction_correctly_rounded :
+  forall k n, 0 <= k <= 2 ^ 24 -> 0 < n <= 2 ^ 24 ->
+    B2R 24 128 (f32_div (f32_of_int k) (f32_of_int n)) =
+      round radix2 (FLT_exp (-149) 24) ZnearestE (IZR k / IZR n) /\
+    is_finite 24 128 (f32_div (f32_of_int k) (f32_of_int n)) = true.
+Proof. exact f32_div_correct_frac. Qed.
+Print Assumptions C04_float32_fraction_correctly_rounded.
+
+(* a proper fraction never rounds up to 1.0; k/n == 1.0 exactly when k = n *)
+Theorem C04_fraction_eq_one_iff :
+  forall k n, 0 <= k <= n -> 0 < n <= 2 ^ 24 ->
+    (f32_eq (f32_div (f32_of_int k) (f32_of_int n)) f32_one = true <-> k = n).
+Proof. exact f32_frac_eq_one_iff. Qed.
+Print Assumptions C04_fraction_eq_one_iff.
+
+Theorem C04_proper_fraction_below_one :
+  forall k n, 0 <= k < n -> n <= 2 ^ 24 ->
+    Bcompare 24 128 (f32_div (f32_of_int k) (f32_of_int n)) f32_one = Some Lt.
+Proof. exact f32_frac_lt_one_cmp. Qed.
+Print Assumptions C04_proper_fraction_below_one.
+
+(* a window with b unfilled slots in front of >= 1 commits: Complete == 1.0 iff no slot is unfilled *)
+Theorem C04_partition_complete_iff_full :
+  forall b c0 cs p minimum allowed now s st en c,
+    cp_offsets p = repeat None b ++ map Some (c0 :: cs) ->
+    Z.of_nat (b + S (length cs)) <= 2 ^ 24 ->
+    eval_partition p minimum allowed now = Ok (s, st, en, c) ->
+    (f32_eq c f32_one = true <-> b = 0%nat).
+Proof. exact partition_complete_iff_full. Qed.
+Print Assumptions C04_partition_complete_iff_full.
+
+(* ... and its value is the correctly rounded fraction filled/slots *)
+Theorem C04_partition_complete_value :
+  forall b c0 cs p minimum allowed now s st en c,
+    cp_offsets p = repeat None b ++ map Some (c0 :: cs) ->
+    Z.of_nat (b + S (length cs)) <= 2 ^ 24 ->
+    eval_partition p minimum allowed now = Ok (s, st, en, c) ->
+    B2R 24 128 c = round radix2 (FLT_exp (-149) 24) ZnearestE
+                     (IZR (Z.of_nat (S (length cs))) / IZR (Z.of_nat (b + S (length cs)))) /\
+    is_finite 24 128 c = true.
+Proof. exact partition_complete_value. Qed.
+Print Assumptions C04_partition_complete_value.
+
+(* a window without any commit (any length, the no-ring length 0 included) is never complete: its value is 0 *)
+Theorem C04_window_without_commits_not_complete :
+  forall b p minimum allowed now s st en c,
+    cp_offsets p = repeat None b -> Z.of_nat b <= 2 ^ 24 ->
+    eval_partition p minimum allowed now = Ok (s, st, en, c) ->
+    f32_eq c f32_one = false /\ B2R 24 128 c = 0%R.
+Proof. exact partition_no_commits_not_complete. Qed.
+Print Assumptions C04_window_without_commits_not_complete.
+
+(* every storage-shaped window of at most 2^24 slots: Complete == 1.0 iff >= 1 slot and no slot unfilled *)
+Theorem C04_partition_complete_iff_window_full :
+  forall p minimum allowed now s st en c,
+    storage_shaped p ->
+    eval_partition p minimum allowed now = Ok (s, st, en, c) ->
+    (f32_eq c f32_one = true <-> window_full p = true).
+Proof. exact partition_complete_iff_window_full. Qed.
+Print Assumptions C04_partition_complete_iff_window_full.
+
+(* the group's Complete is (number of partitions whose window is full)/(number of partitions), rounded once to
+   binary32; 0 for a group without partitions *)
+Theorem C04_group_complete_is_rounded_fraction :
+  forall ts minimum allowed now g,
+    Forall storage_shaped (all_parts ts) ->
+    Z.of_nat (length (all_parts ts)) <= 2 ^ 24 ->
+    eval_group ts minimum allowed now = Ok g ->
+    gs_total_partitions g = Z.of_nat (length (all_parts ts)) /\
+    is_finite 24 128 (gs_complete g) = true /\
+    ((0 < length (all_parts ts))%nat ->
+       B2R 24 128 (gs_complete g) =
+       round radix2 (FLT_exp (-149) 24) ZnearestE
+         (IZR (count_full (all_parts ts)) / IZR (Z.of_nat (length (all_parts ts))))) /\
+    (length (all_parts ts) = 0%nat -> B2R 24 128 (gs_complete g) = 0%R).
+Proof. exact group_complete_is_rounded_fraction. Qed.
+Print Assumptions C04_group_complete_is_rounded_fraction.
+
+(* the group's Complete is 1.0 exactly when every partition's window is full *)
+Theorem C04_group_complete_one_iff :
+  forall ts minimum allowed now g,
+    Forall storage_shaped (all_parts ts) ->
+    (0 < length (all_parts ts))%nat -> Z.of_nat (length (all_parts ts)) <= 2 ^ 24 ->
+    eval_group ts minimum allowed now = Ok g ->
+    (f32_eq (gs_complete g) f32_one = true <-> forallb window_full (all_parts ts) = true).
+Proof. exact group_complete_one_iff. Qed.
+Print Assumptions C04_group_complete_one_iff.
+
+(* non-vacuity: 1 full window among 3 storage-shaped partitions => 0x3EAAAAAB (float32(1)/float32(3));
+   3 of 4 slots => 0x3F400000, not complete; the bound 2^24 is sharp *)
+Example C04_complete_witness_shapes :
+  Forall storage_shaped (all_parts [(1, [ex_full; ex_partial]); (2, [ex_nocommit; ex_noring])]).
+Proof. exact ex_shapes. Qed.
+Example C04_complete_witness_group :
+  match eval_group [(1, [ex_full; ex_partial]); (2, [ex_nocommit])] f32_zero 0 3 with
+  | Ok g => f32_bits (gs_complete g) = 0x3EAAAAAB /\ gs_total_partitions g = 3
+  | Crash => False
+  end /\ count_full (all_parts [(1, [ex_full; ex_partial]); (2, [ex_nocommit])]) = 1.
+Proof. exact ex_group_bits. Qed.
+Example C04_complete_witness_partition :
+  match eval_partition ex_partial f32_zero 0 3 with
+  | Ok (_, _, _, c) => f32_bits c = 0x3F400000 /\ f32_eq c f32_one = false
+  | Crash => False
+  end /\ window_full ex_partial = false /\ window_full ex_full = true /\
+  window_full ex_nocommit = false /\ window_full ex_noring = false.
+Proof. exact ex_partition_bits. Qed.
+Example C04_bound_2_24_is_sharp :
+  f32_eq (f32_div (f32_of_int (2 ^ 24)) (f32_of_int (2 ^ 24 + 1))) f32_one = true.
+Proof. exact frac_beyond_bound_is_one. Qed.
